@@ -224,6 +224,11 @@ def yield_merge_preserved(old_text, new_text):
     # duplicate_yield: a task yielded twice is yielded once and the second name becomes an alias
     # (`b = a`); accept that when `a` is bound to the very same task expression
     missing = p_old - p_new
+    # a task yielded twice into `_` is simply yielded once
+    for (t, v), cnt in list(missing.items()):
+        if t == "_" and p_new.get(("_", v), 0) > 0:
+            del missing[(t, v)]
+            p_old[(t, v)] = p_new[(t, v)]
     if missing and not (p_new - p_old):
         alias_dumps = []
         ok = True
@@ -291,9 +296,13 @@ def eval_equal(module_text, old_expr, new_expr):
     """Evaluate both expressions in the module's namespace; returns (comparable, equal, detail)."""
     if not isinstance(old_expr, ast.expr) or not isinstance(new_expr, ast.expr):
         return False, None, "not expressions"
+    import warnings
+
     glob = {}
     try:
-        exec(compile(_nobom(module_text), "<c16-oracle>", "exec"), glob)
+        with warnings.catch_warnings():
+            warnings.simplefilter("ignore")
+            exec(compile(_nobom(module_text), "<c16-oracle>", "exec"), glob)
     except BaseException as e:
         return False, None, "module did not execute: %r" % (e,)
     results = []
@@ -301,7 +310,9 @@ def eval_equal(module_text, old_expr, new_expr):
         env = _Env(p=3, q="w", pair=(4, 5))
         try:
             code = compile(ast.Expression(body=expr), "<c16-expr>", "eval")
-            results.append(("value", repr(eval(code, glob, env))))
+            with warnings.catch_warnings():
+                warnings.simplefilter("ignore")
+                results.append(("value", repr(eval(code, glob, env))))
         except BaseException as e:
             results.append(("raised", type(e).__name__))
     return True, results[0] == results[1], "%s vs %s" % (results[0], results[1])
@@ -333,7 +344,7 @@ def classify_s1_autofix(before, first):
                     return "yield-inserted-inside-comprehension-or-lambda"
     if first["add"] and dels and dels[0] - 1 < len(lines):
         old_line = lines[dels[0] - 1]
-        if old_line.startswith("\t") and first["add"][0].startswith(" "):
+        if old_line.startswith("\t") and any(a.startswith(" ") for a in first["add"]):
             return "replacement-indented-with-spaces-in-tab-indented-file"
     if not first["add"] and dels:
         # deleted statement was the only statement of its block?
@@ -522,7 +533,12 @@ class Judge:
             code = targets[0]["code"]
             Pf = [d for d in P if d["file"] == name]
             P2f = [d for d in P2 if d["file"] == name]
-            if mode == "add_ignores":
+            inserts_comment = mode == "add_ignores" and any(IGNORE in a for a in (first["add"] or []))
+            if mode == "add_ignores" and not inserts_comment:
+                # under add-ignores, errors that ignore comments cannot silence (unused_ignore) keep
+                # their own replacement: judge it as the autofix it is
+                self.stats["add_ignores_step_applied_own_replacement"] += 1
+            if inserts_comment:
                 L = dels[0]
                 # own-line form inserts one line above L; the trailing form (used next to the file
                 # header) rewrites L in place
@@ -613,7 +629,8 @@ class Judge:
         new_lines = pylines(new_text)
         for k in [k for k in got if k[3] == "unused_ignore" and k not in expect]:
             ln = k[1]
-            if ln is not None and 1 <= ln <= len(new_lines) and ("ignore[%s]" % code) in new_lines[ln - 1]:
+            names = ASYNQ_MERGE if code in ASYNQ_MERGE else {code}
+            if ln is not None and 1 <= ln <= len(new_lines) and any(("ignore[%s]" % c) in new_lines[ln - 1] for c in names):
                 del got[k]
                 self.stats["stale_ignore_after_fix"] += 1
         if code in ASYNQ_MERGE or code in ASYNQ_WRAP:
@@ -627,6 +644,10 @@ class Judge:
             sig = "unclassified"
             if line_has_semicolon_stmts(old_text, dels[0]):
                 sig = "rewritten-line-shared-with-other-statement"
+            if code == "unused_ignore" and not lost and gained and all(k[3] == "attribute_is_never_set" for k in gained):
+                # the "unused" comment was the one silencing a diagnostic of the end-of-run attribute
+                # checker (C16-K6): removing it brings that diagnostic back
+                sig = "late-attribute-checker-diagnostic-vs-unused-ignore"
             self.add("S4", step, "autofix:%s:%s" % (code, sig), "%s: diagnostics outside the fixed statement changed: lost %s gained %s" % (name, lost[:4], gained[:4]),
                      file=name, before=old_text, after=new_text)
             return
@@ -782,6 +803,8 @@ class Judge:
                             alternating = True
                 if any(len(c) >= 2 for c in by_line.values()) or alternating:
                     sig = "iteration-limit:two-codes-on-one-line"
+                if "unused_ignore" in (e.get("enable") or []) and any(d["code"] == "attribute_is_never_set" for d in P or []):
+                    sig = "iteration-limit:late-attribute-checker-diagnostic-vs-unused-ignore"
             self.add("S5", e["i"], "add_ignores:%s" % sig, "the -r --add-ignores loop did not terminate by itself: %s" % str(res.get("raised") or "lifetime died")[:300],
                      after=after)
             self.broken = True
